@@ -5,14 +5,21 @@ BASE = dict(APPLY=1, DEPTH=-1, FILTER=0, REFL=0, ROT0=1, EREP=0, RREP=0, FLAT=0)
 def V(**kw):
     d = dict(BASE); d.update(kw); return d
 OBLIGATIONS = [
-    Ob('get_polygons_through_reference', 'C06/get_polys.c', [GP, GO, '_ZN5gdstk4Cell7flattenEbRNS_5ArrayIPNS_9ReferenceEEE'], model='ie', defines={'IE_BITS': 14, 'REAL_TOL': 1}, stubs=['_ZNK5gdstk7Polygon8fractureEmdRNS_5ArrayIPS0_EE'],
+    Ob('get_polygons_through_reference', 'C06/get_polys.c', [GP, GO, '_ZN5gdstk4Cell7flattenEbRNS_5ArrayIPNS_9ReferenceEEE'], model='ie', defines={'IE_BITS': 14, 'REAL_TOL': 1, 'QUARTER_TURN_CONTRACT': 1}, stubs=['_ZNK5gdstk7Polygon8fractureEmdRNS_5ArrayIPS0_EE', '_ZN5gdstk24is_multiple_of_pi_over_2EdRl'],
        what='Cell::get_polygons(apply_repetitions, depth, filter) on top -> reference -> leaf equals the hand-composed affine image of the leaf polygon under every reference and element repetition offset; repetitions applied or left attached denote the same shapes; depth 0 and a non-matching tag return nothing; copies are fresh',
        bound='1-vertex leaf polygon (transforms act vertex-wise), coordinates -2..2, magnification -2..2, both reflections, rotation 0 or free (c,s), element / reference repetition 2x1 / 1x2 present or not, depth in {-1, 0, 1}, filter in {none, matching, other}',
        variants=[V(), V(REFL=1, ROT0=0), V(EREP=1), V(EREP=1, APPLY=0), V(EREP=1, APPLY=0, REFL=1, ROT0=0), V(RREP=1, ROT0=0), V(RREP=1, EREP=1, APPLY=1, REFL=1, ROT0=0), V(RREP=1, EREP=1, APPLY=0, ROT0=0),
-                 V(DEPTH=0), V(DEPTH=1, EREP=1), V(FILTER=1, EREP=1), V(FILTER=2),
+                 V(ROT0=2), V(ROT0=2, REFL=1, EREP=1, APPLY=0), V(DEPTH=0), V(DEPTH=1, EREP=1), V(FILTER=1, EREP=1), V(FILTER=2),
                  V(FLAT=1, EREP=1, APPLY=1, REFL=1, ROT0=0), V(FLAT=1, EREP=1, APPLY=0, ROT0=0), V(FLAT=1, RREP=1)],
-       unwind=9, timeout=600, mem_gb=12, real_stub_syms=['cos', 'sin', 'sincos'], nvec=20),
+       unwind=11, timeout=600, mem_gb=12, real_stub_syms=['cos', 'sin', 'sincos'], nvec=20),
+    Ob('get_paths_and_labels', 'C06/get_paths.c', ['_ZNK5gdstk4Cell13get_flexpathsEblbmRNS_5ArrayIPNS_8FlexPathEEE', '_ZNK5gdstk4Cell15get_robustpathsEblbmRNS_5ArrayIPNS_10RobustPathEEE', '_ZNK5gdstk4Cell10get_labelsEblbmRNS_5ArrayIPNS_5LabelEEE'],
+       model='ie', defines={'IE_BITS': 14, 'REAL_TOL': 1, 'QUARTER_TURN_CONTRACT': 1, 'DIRECT': 0, 'SCALEW': 1, 'REFL': 0, 'ROT0': 1, 'FILTER': 0}, stubs=['_ZN5gdstk24is_multiple_of_pi_over_2EdRl'], rename={'strlen': 'my_strlen1'},
+       what='Cell::get_flexpaths / get_robustpaths / get_labels on the cell itself and through a reference: fresh copies; a tag filter keeps exactly the path elements (labels) with that tag, in order, and every other field of the path (spine, trafo, width/offset scales, end point, tolerance, flags, per-element settings); through the reference the copy is mapped by the reference (spine / trafo composed, widths x|m| iff scale_width, offsets x|m| and negated by reflection, end extensions x|m|, label origin / magnification / reflection)',
+       bound='leaf with one 2-element robust path (arbitrary prior trafo -2..2, width_scale 1..2, offset_scale -2..2) / one 2-element 2-point flexible path / two labels; concrete distinct tags; filter in {none, first, second, absent}; reference magnification -2..2, both reflections, rotation 0 or free (c,s); no repetitions',
+       variants=[dict(KIND=k, FILTER=f, DIRECT=1) for k in (0, 1, 2) for f in (0, 1, 2, 3)] + [dict(KIND=k, FILTER=f, REFL=rf, ROT0=z, SCALEW=w) for k in (0, 1) for (f, rf, z, w) in ((0, 0, 0, 1), (1, 1, 0, 0), (2, 1, 1, 1), (0, 1, 0, 0))]
+                + [dict(KIND=2, FILTER=f, REFL=rf, ROT0=z) for (f, rf, z) in ((0, 0, 0), (1, 1, 0), (2, 1, 1))],
+       unwind=11, timeout=600, mem_gb=12, real_stub_syms=['cos', 'sin', 'sincos'], nvec=20),
 ]
 BOUNDS = 'two-level hierarchy, one polygon, 2x1 / 1x2 repetitions, free similarity transform'
-OUTSIDE = 'paths and labels through references (their field-level transforms are C10; the same four call sites were fixed together); three-level hierarchies; Cell::copy_from / Library::copy_from; floating-point rounding'
+OUTSIDE = 'paths and labels with repetitions through references (the same four call sites were fixed together; polygons cover the repetition logic); three-level hierarchies; Cell::copy_from / Library::copy_from; floating-point rounding'
 ASSUMPTIONS = ['integer-exact model; cos/sin free symbols', 'malloc never fails']
